@@ -28,7 +28,11 @@ impl Tier {
     }
 }
 
-pub const VERIF_ROOT: &str = "/verif";
+/// Root of the verification tree (evidence, replays, known findings). `check.sh` exports VERIF_ROOT = its own
+/// directory, so a snapshot of /verif run from elsewhere writes into the snapshot.
+pub fn verif_root() -> String {
+    std::env::var("VERIF_ROOT").unwrap_or_else(|_| "/verif".to_string())
+}
 
 #[derive(Clone, Debug)]
 pub struct Violation {
@@ -186,7 +190,7 @@ impl Ctx {
         let mut new_violations = 0usize;
         let mut known_hits: Vec<String> = Vec::new();
         let mut lines: Vec<String> = Vec::new();
-        std::fs::create_dir_all(format!("{}/replays", VERIF_ROOT)).ok();
+        std::fs::create_dir_all(format!("{}/replays", verif_root())).ok();
         for (sig, (v, count)) in viol.iter() {
             if let Some(k) = known.open_match(&self.prop, sig) {
                 known_hits.push(sig.clone());
@@ -197,7 +201,7 @@ impl Ctx {
             let mut h = Sha256::new();
             h.update(sig.as_bytes());
             let d = hex::encode(&h.finalize()[..6]);
-            let path = format!("{}/replays/{}-{}.json", VERIF_ROOT, self.prop, d);
+            let path = format!("{}/replays/{}-{}.json", verif_root(), self.prop, d);
             let body = json!({"property": self.prop, "signature": sig, "what": v.what, "occurrences": count, "case": v.case});
             std::fs::write(&path, serde_json::to_string_pretty(&body).unwrap()).ok();
             lines.push(format!("VIOLATION property={} replay={}", self.prop, path));
@@ -235,11 +239,11 @@ impl Ctx {
             "wall_s": self.elapsed(),
             "violations": new_violations,
         });
-        std::fs::create_dir_all(format!("{}/evidence", VERIF_ROOT)).ok();
+        std::fs::create_dir_all(format!("{}/evidence", verif_root())).ok();
         let path = if std::env::var("VERIF_REPLAY").is_ok() {
-            format!("{}/replays/last-replay-{}.json", VERIF_ROOT, self.prop)
+            format!("{}/replays/last-replay-{}.json", verif_root(), self.prop)
         } else {
-            format!("{}/evidence/{}.json", VERIF_ROOT, self.prop)
+            format!("{}/evidence/{}.json", verif_root(), self.prop)
         };
         if let Err(e) = std::fs::write(&path, serde_json::to_string_pretty(&ev).unwrap()) {
             out.line(&format!("MACHINERY-ERROR: cannot write evidence {}: {}", path, e));
@@ -280,7 +284,7 @@ pub struct KnownFindings {
 }
 impl KnownFindings {
     pub fn load() -> KnownFindings {
-        let p = format!("{}/known_findings.json", VERIF_ROOT);
+        let p = format!("{}/known_findings.json", verif_root());
         let entries = std::fs::read_to_string(p)
             .ok()
             .and_then(|s| serde_json::from_str::<Value>(&s).ok())
